@@ -621,6 +621,31 @@ int sim_join(sim_thread *t, uint64_t timeout_ns) {
 	return 0;
 }
 int sim_thread_done(sim_thread *t) { return t->state == ST_DONE; }
+
+/* pthread_exit from a simulated thread (dispatch_main() on the main thread): the thread-specific destructors run
+ * here, under the baton, in order of key creation like glibc does; the thread then counts as finished */
+void __real_pthread_exit(void *) __attribute__((noreturn));
+int __real_sigsuspend(const sigset_t *);
+void __wrap_pthread_exit(void *r) {
+	sim_thread *me = self;
+	if (!active || !me) __real_pthread_exit(r);
+	step_common(me);
+	run_key_dtors();
+	me->state = ST_DONE;
+	for (int i = 0; i < nthreads; i++)
+		if (threads[i]->state == ST_JOIN && threads[i]->wait_obj == me) wake(threads[i]);
+	reschedule(3);
+	if (me->id == 0) for (;;) pause();   // the process's initial thread stays parked: the run ends with _exit
+	__real_pthread_exit(r);
+}
+/* sigsuspend: libdispatch parks the main thread in it for ever after dispatch_main() (simulated signals are
+ * delivered through the signalfd stand-in only, so nothing ever interrupts it) */
+int __wrap_sigsuspend(const sigset_t *m) {
+	if (!active || !self) return __real_sigsuspend(m);
+	step_common(self);
+	for (;;) block(ST_FOREVER, NULL, UINT64_MAX);
+}
+
 int sim_self_id(void) { return self ? self->id : -1; }
 int sim_nthreads(void) { return nthreads; }
 
